@@ -159,9 +159,30 @@ func buildL2(out string) {
 	}
 }
 
+// instrumentOverlay writes copies of the repository's files that use sync/atomic with a yield point before every
+// atomic operation (cmd/instrument) and returns the -overlay flag for the worker build.
+func instrumentOverlay(dir string) []string {
+	if err := os.MkdirAll(dir, 0755); err != nil {
+		fatal2("instrument: %v", err)
+	}
+	cmd := exec.Command("go1.26.8", "run", "./cmd/instrument", repoDir, dir)
+	cmd.Dir = filepath.Join(verifDir, "sim")
+	cmd.Env = goEnv()
+	var buf bytes.Buffer
+	cmd.Stdout, cmd.Stderr = &buf, &buf
+	if err := cmd.Run(); err != nil {
+		fmt.Fprintf(os.Stderr, "%s\n", buf.String())
+		fatal2("instrumenting the atomic operations of the repository failed: %v", err)
+	}
+	return []string{"-overlay", filepath.Join(dir, "overlay.json")}
+}
+
 func build(out string, race bool) {
 	args := []string{"test", "-c", "-tags", "verif", "-o", out}
 	args = append(args, simModfile()...)
+	ovl := out + ".instr"
+	args = append(args, instrumentOverlay(ovl)...)
+	defer os.RemoveAll(ovl)
 	if race {
 		args = append(args, "-race")
 	}
